@@ -43,7 +43,8 @@ RULE = ("one run = one committed base tree + 2-3 concurrent short "
         "detection (resolver call, write conflict or read conflict)")
 TECHNIQUE = ("deterministic simulation of optimistic concurrency: "
              "concurrent clients on an MVCC storage stub with seeded "
-             "transactions and commit order; serial-or-disjoint-merge "
+             "transactions, rounds, synchronisation points and commit "
+             "order; serial-or-disjoint-merge "
              "outcome oracle on a fresh connection, read-dependency monitor")
 LEVEL_TEXT = ("Seeded base shapes (heights 1-4, small and default node "
               "sizes, all families, BTree and TreeSet, both "
@@ -54,6 +55,10 @@ LEVEL_TEXT = ("Seeded base shapes (heights 1-4, small and default node "
               "conflict, serial result or disjoint merge, in a sound tree "
               "whose every listed key is reachable; every write must "
               "declare its committed interior descent path, reads nothing. "
+              "A third of the plans go on for several rounds (snapshots 1-4 "
+              "commits old, partly invalidated caches, retries after "
+              "conflicts; oracle per client snapshot); in-place set "
+              "operators inside the transactions; user subclasses. "
               "Sampling.")
 
 WRITES = ("set", "del", "insert", "setdefault", "pop", "popd", "popitem",
